@@ -96,6 +96,8 @@ def run(ctx):
     r7 = ctx.rule("C16.R7", "OBJECT-HISTORY (interpreted): real Workspace objects (Workspace.__init__ through the channel-summary mixin into dict, class-level attributes shared by all instances as in Python) built one after the other in ONE process for two specifications with the SAME channel name and different observations and measurement names; each object's observations / measurement_names / data(model) are its own afterwards; combine(left, right, 'left outer') then leaves both inputs' payload, observations and data() as they were and returns the left observation for the common channel", "HISTORY", floor=1)
     _object_history(ctx, r7, repo)
     workspace_verbatim(ctx, r7, repo)
+    r8 = ctx.rule("C16.R8", "SCHEMA-KEYS (composition of two files): every top-level key the workspace operations read UNCONDITIONALLY from a workspace (`self['version']`, `left['channels']` ... in combine, prune/rename, sorted, the constructor, model, get_measurement) is listed as `required` for a workspace in the shipped schema (schemas/<version>/defs.json): a document the schema accepts cannot make an operation fail with KeyError", "PAIR", floor=4)
+    _schema_keys(ctx, r8, repo, ws)
     r5 = ctx.rule("C16.R5", "TABLE: sorted sorts channels, samples, measurements, parameters, observations by name and modifiers by (name, type)", "TABLE", floor=6)
 
     # ------------------------------------------------------------ R1
@@ -790,3 +792,37 @@ def _deep(v):
         n.attrs.update({k: _deep(x) for k, x in v.attrs.items()})
         return n
     return v
+
+
+def _schema_keys(ctx, rid, repo, ws):
+    import json
+    files = sorted((repo.root / "src" / "pyhf" / "schemas").glob("*/defs.json"))
+    if not files:
+        ctx.unrecognised(rid, ws, "schemas/*/defs.json", "no shipped schema definitions found")
+        return
+    reads = {}
+    names = {"self", "left", "right", "workspace", "spec"}
+    for m in ws.methods.values():
+        for n in ast.walk(m.node):
+            if isinstance(n, ast.Subscript) and isinstance(n.ctx, ast.Load) and isinstance(n.value, ast.Name) and n.value.id in names and isinstance(A.const_value(n.slice), str):
+                if n.value.id == "spec" and m.name != "__init__":
+                    continue
+                reads.setdefault(A.const_value(n.slice), []).append((m, n))
+    for fpath in files:
+        rel = fpath.relative_to(repo.root).as_posix()
+        ctx.files_analysed.add(rel)
+        try:
+            wsdef = json.loads(fpath.read_text(encoding="utf-8"))["definitions"]["workspace"]
+            required, props = set(wsdef.get("required", [])), set(wsdef.get("properties", {}))
+        except (KeyError, TypeError, ValueError) as e:
+            ctx.unrecognised(rid, ws, f"{rel}::definitions.workspace", f"not where this rule looks for it: {type(e).__name__}: {e}")
+            continue
+        for key in sorted(reads):
+            m, n = reads[key][0]
+            site = f"{WS}::Workspace reads ['{key}'] unconditionally ({len(reads[key])} site(s), first in {m.name}) x {rel}::definitions.workspace.required"
+            if key in required:
+                ctx.holds(rid, site, "required by the schema")
+            elif key in props:
+                ctx.violated(rid, m, f"workspace['{key}'] in {m.name}", f"the schema ({rel}) accepts a workspace without `{key}` (it is not in `required`), but `{m.name}` -- and {len(reads[key]) - 1} other site(s) -- reads it with a plain subscript: a schema-valid workspace evaluates fine and then makes the operation fail with KeyError", expected=f"`{key}` in definitions.workspace.required (or read with .get)", found=f"required = {sorted(required)}", node=n)
+            else:
+                ctx.unrecognised(rid, m, f"workspace['{key}']", f"`{key}` is read from a workspace but the schema's workspace definition does not know it")
